@@ -32,7 +32,9 @@ Definition render_alt (m : meth) (a : ialt) : list string :=
    [ln 2 "):"] ++
    (if a_locations a then [ln 3 "tok = self._tokenizer.get_last_non_whitespace_token()";
                            ln 3 "end_lineno, end_col_offset = tok.end"] else []) ++
-   (if m_loop m then [ln 3 ("children.append(" ++ a_action a ++ ")"); ln 3 "mark = self._mark()"]
+   (if m_loop m then (if a_unreachable a          (* the replacement of UNREACHABLE may end in a comment *)
+                      then [ln 3 "children.append("; ln 4 (a_action a); ln 3 ")"]
+                      else [ln 3 ("children.append(" ++ a_action a ++ ")")]) ++ [ln 3 "mark = self._mark()"]
     else add_return m 3 (a_action a)) ++
    [ln 2 "self._reset(mark)"] ++
    (if a_has_cut a then ln 2 "if cut:" :: add_return m 3 "None" else []))%list.
